@@ -3,4 +3,8 @@ CONSTANTS
   Impl = "pinned"
   Kind = "pit"
   Temps = {1000}
+  Hetero = FALSE
+  Part = "all"
+  Dims = {"features", "rf", "dilation", "dc"}
+  HOpts = {"temp", "hard", "gumbel", "disable"}
 INVARIANT FrozenNeverGrad
